@@ -197,6 +197,12 @@ class Inst:
     other_parents: list = field(default_factory=list)  # parents of other classes (no rule may fire)
 
 
+# parameters a rule is known to narrow; each is rendered (and compared with the model) by the family's own suffix:
+# AsType.dtypes -> keys=…, ResetIndex.drop -> drop=…; Assign's variadic key/value operands -> keys=…
+_NARROWED_PARAMS = {("AsType", "dtypes"), ("ResetIndex", "drop")}
+_NARROWED_CLASSES = ("Assign",)
+
+
 def _render_generic(inst: Inst, parent, res):
     """canonical description of what the real rule returned"""
     from dask_expr._expr import Expr, Index, Projection
@@ -250,6 +256,17 @@ def _render_generic(inst: Inst, parent, res):
                 rendered.append(rsel(new.operand("columns")))
             else:
                 return f"?child:{new}"
+    if not inst.io and not inst.concat and type(self_expr).__name__ not in _NARROWED_CLASSES:
+        # the rule replaces operands that are expressions; every other parameter of the rebuilt node is the
+        # original's unless the rule is known to narrow it (lesson of seeded C04-m4, applied to every rule family)
+        for k, (o0, o1) in enumerate(zip(self_expr.operands, inner.operands)):
+            if isinstance(o0, Expr) or isinstance(o1, Expr):
+                continue
+            pname = type(self_expr)._parameters[k] if k < len(type(self_expr)._parameters) else f"#{k}"
+            if (type(self_expr).__name__, pname) in _NARROWED_PARAMS:
+                continue
+            if repr(o0) != repr(o1):
+                return f"?param-changed:{type(self_expr).__name__}.{pname}={o1!r:.60}"
     c0 = rendered[0]
     c1 = rendered[1] if len(rendered) > 1 else "-"
     s = f"child={c0};child2={c1};keep={keep};collapse={1 if c0.startswith('$') else 0}"
